@@ -566,11 +566,53 @@ type built struct {
 	msgs   []refcodec.Msg
 }
 
+// rejectedFrame: frames the server cannot decode and answers with Rlerror
+// after skipping their body (p9's reject paths): a message type that is not
+// registered (Tgetlock, which Linux clients do send), a payload-carrying type
+// whose body is shorter than its fixed part, and a known type with a
+// malformed body. nil for every other kind.
+func rejectedFrame(kind string, tag uint16) []byte {
+	var typ uint8
+	var body []byte
+	switch kind {
+	case "Tgetlock":
+		typ = 54
+		body = []byte{2, 0, 0, 0, 1, 0, 0, 0, 0, 0, 0, 0, 0, 9, 0, 0, 0, 0, 0, 0, 0, 7, 0, 0, 0, 3, 0, 'c', 'l', 'i'}
+	case "Twrite-short":
+		typ = refcodec.Twrite
+		body = []byte{2, 0, 0, 0, 1}
+	case "Twalk-badbody":
+		typ = refcodec.Twalk
+		body = []byte{1, 0, 0, 0, 40, 0, 0, 0, 3, 0, 1, 0, 'f'} // announces 3 names, carries 1
+	default:
+		return nil
+	}
+	n := 7 + len(body)
+	f := []byte{byte(n), byte(n >> 8), byte(n >> 16), byte(n >> 24), typ, byte(tag), byte(tag >> 8)}
+	return append(f, body...)
+}
+
+// rejectedType marks, in built.msgs, a frame made by rejectedFrame.
+const rejectedType = 255
+
 func buildT(kinds []string) built {
 	var frames [][]byte
 	var fixed []int
 	var b built
 	for j, k := range kinds {
+		if raw := rejectedFrame(k, uint16(1+j)); raw != nil {
+			// p9 answers a frame whose type it does not know under the frame's
+			// tag, and a frame whose body it cannot decode under NOTAG (at most
+			// one such frame per stream here, so tags stay distinct)
+			rtag := uint16(1 + j)
+			if k != "Tgetlock" {
+				rtag = rawpeer.NoTag
+			}
+			b.msgs = append(b.msgs, refcodec.Msg{Type: rejectedType, Tag: rtag})
+			frames = append(frames, raw)
+			fixed = append(fixed, 0)
+			continue
+		}
 		m, fx := tMsg(k, j)
 		b.msgs = append(b.msgs, m)
 		frames = append(frames, refcodec.Encode(m))
@@ -744,6 +786,8 @@ func directServer(b built, complete int, o *obs) []string {
 			wantReply = fmt.Sprintf("tag%d:Rflush:", m.Tag)
 		case refcodec.Tclunk:
 			wantReply = fmt.Sprintf("tag%d:Rclunk:", m.Tag)
+		case rejectedType:
+			wantReply = fmt.Sprintf("tag%d:Rlerror:", m.Tag)
 		default:
 			wantReply = fmt.Sprintf("tag%d:%s:", m.Tag, refcodec.Defs[refcodec.ReplyType(m.Type)].Name)
 		}
@@ -1145,6 +1189,8 @@ func streamsT(quick bool) [][]string {
 		{"Twrite0"}, {"Twrite1"}, {"Twrite5"}, {"Twrite40"},
 		{"Twrite5", "Tread"}, {"Tread", "Twrite1"}, {"Twrite5", "Twrite1"}, {"Tclunk", "Twrite5"}, {"Twrite0", "Tflush"},
 		{"Twrite5", "Tclunk", "Twrite1"}, {"Tread", "Twrite5", "Tflush"}, {"Tclunk", "Tclunk", "Tclunk"},
+		// frames the server rejects (body skipped, Rlerror), followed by a frame that must still be understood
+		{"Tgetlock"}, {"Tgetlock", "Tclunk"}, {"Twrite-short", "Tclunk"}, {"Twalk-badbody", "Tclunk"}, {"Tgetlock", "Twrite5"}, {"Twrite5", "Tgetlock", "Tread"},
 	}
 	if quick {
 		return s
@@ -1523,6 +1569,21 @@ func run(ctx *fw.Ctx, rep *fw.Report) {
 					c.one(kase{Dir: dir, Path: path, Stream: st, Cuts: cuts, Trunc: -1}, info)
 				}
 				for t := 0; t < L; t++ {
+					// A frame p9 rejects from its header alone (unknown type, body
+					// too short for its type) is answered with Rlerror whether
+					// or not its body arrives in full; no message is delivered
+					// either way, so an end of stream inside such a body is
+					// outside the statement (a don't-care, not enumerated).
+					inRejected := false
+					for _, fi := range info {
+						if rejectedFrame(fi.kind, 0) != nil && t >= fi.start+7 && t < fi.start+fi.size {
+							inRejected = true
+						}
+					}
+					if inRejected {
+						rep.Count("truncations_inside_a_rejected_frames_body(not enumerated)", 1)
+						continue
+					}
 					for _, cuts := range [][]int{nil, all} {
 						if cuts != nil && t < 2 {
 							continue
